@@ -24,7 +24,7 @@ use nexosim::time::{Clock, MonotonicTime, SyncStatus};
 use crate::explore;
 
 pub const BASE_SECS: i64 = 1000;
-pub const BASE_NANOS: u32 = 999_999_990;
+pub const BASE_NANOS: u32 = 999_999_998;
 
 pub fn mt(off: i64) -> MonotonicTime {
     let total = BASE_NANOS as i64 + off;
@@ -138,9 +138,14 @@ pub enum Ev {
         at: i64,
         now: i64,
         target: Target,
+        tag: u16,
+        val: i64,
         res: Result<(), SE>,
     },
     Cancel { by: Origin, id: u32 },
+    Connect { node: usize, port: usize, target: usize },
+    Fault { node: usize, kind: PanicKind },
+    Blocked(u64),
     TimeRead { node: usize, t: i64 },
     ModelDrop { node: usize },
     DropStart,
@@ -678,6 +683,8 @@ impl Node {
                         at,
                         now,
                         target: Target::Node(node),
+                        tag,
+                        val: v,
                         res,
                     });
                 }
@@ -699,17 +706,23 @@ impl Node {
                         t: off(cx.time()),
                     });
                 }
-                Op::Panic(k) => match k {
+                Op::Panic(k) => {
+                    w.log(Ev::Fault { node, kind: k });
+                    match k {
                     PanicKind::Str => panic!("boom"),
                     PanicKind::String => panic!("boom {}", node),
                     PanicKind::Custom => panic::panic_any(CustomPayload(node as u32 + 7)),
-                },
-                Op::Block(ms) => std::thread::sleep(Duration::from_millis(ms)),
+                    }
+                }
+                Op::Block(ms) => {
+                    w.log(Ev::Blocked(ms));
+                    std::thread::sleep(Duration::from_millis(ms))
+                }
                 Op::Yield => {}
                 Op::Connect { port, target } => {
                     let a = self.addrs[target].clone();
                     late_connect(&mut self.outs[port], a);
-                    w.log(Ev::Note(format!("connect n{} port{} -> n{}", node, port, target)));
+                    w.log(Ev::Connect { node, port, target });
                 }
             }
         }
@@ -1430,6 +1443,8 @@ fn exec_cmd_inner(b: &mut Built, cmd: &Cmd) -> Res {
                 at,
                 now,
                 target: Target::Node(*node),
+                tag: *tag,
+                val: *val,
                 res,
             });
             match res {
@@ -1470,6 +1485,8 @@ fn exec_cmd_inner(b: &mut Built, cmd: &Cmd) -> Res {
                 at,
                 now,
                 target: Target::Src(*src),
+                tag: *tag,
+                val: *val,
                 res,
             });
             match res {
